@@ -177,6 +177,23 @@ impl<Key, Value> Store<Key, Value>
     }
 }
 
+#[cfg(feature = "verif_hooks")]
+impl<Key, Value> Store<Key, Value>
+    where Key: Hash + Eq + Clone, {
+    pub(crate) fn verif_entries(&self) -> Vec<crate::cache::verif::StoreEntryView<Key>> {
+        self.store.iter().map(|pair| crate::cache::verif::StoreEntryView {
+            key: pair.key().clone(),
+            id: pair.value().key_id(),
+            expire_after: pair.value().expire_after(),
+            soft_deleted: pair.value().is_soft_deleted,
+        }).collect()
+    }
+
+    pub(crate) fn verif_peek(&self, key: &Key) -> Option<(KeyId, Option<ExpireAfter>, bool)> {
+        self.store.get(key).map(|pair| (pair.value().key_id(), pair.value().expire_after(), pair.value().is_soft_deleted))
+    }
+}
+
 impl<Key, Value> Store<Key, Value>
     where Key: Hash + Eq,
           Value: Clone, {
